@@ -720,6 +720,11 @@ def scenarios(ctx):
     S.append(sc_rc("rc-raise2", "[1] U [2] U [3]", {"1": Exn("NotImpl"), "2": "FULFILLED", "3": Exn("NotImpl")}, {}))
     S.append(sc_rc("hint-none", "[1] U [501] U [502]", {"1": "FULFILLED"}, {"501": None, "502": "Hinweis B"}))
     S.append(sc_rc("hint-raise", "[1] U [501] U [502]", {"1": "FULFILLED"}, {"501": "Hinweis A", "502": Exn("ValueErr")}))
+    # awaitables of DIFFERENT kinds fail (the code asks the requirement-constraint evaluator first and the hints provider afterwards: which error
+    # escapes is fixed by that order, not by who finishes first)
+    S.append(sc_rc("rc-and-hint-fail", "[1] U [501]", {"1": Exn("NotImpl")}, {"501": None}))
+    S.append(sc_rc("rc-and-hint-fail2", "[1] U [2] U [501] U [502]", {"1": "FULFILLED", "2": Exn("ValueErr")}, {"501": "Hinweis A", "502": Exn("NotImpl")}))
+    S.append(sc_rc("rc-and-hint-fail3", "[2][501] U [1]", {"1": Exn("NotImpl"), "2": "UNFULFILLED"}, {"501": None}))
     # format constraints (ContextVar read after yielding)
     exp = {"901": "abc", "902": "abd", "903": "abc", "904": None}
     S.append(sc_fc("fc1", [("abc", "[901] U [902]")], exp))
